@@ -537,6 +537,7 @@ func runCheck(c *propCfg, tier string) int {
 	sort.Slice(results, func(i, j int) bool { return results[i].base < results[j].base })
 
 	// 4. examine failing shards
+	huntsDone := 0
 	for _, r := range results {
 		if r.exitCode == 0 {
 			continue
@@ -587,8 +588,35 @@ func runCheck(c *propCfg, tier string) int {
 				again, _, out = replayFresh(b, cand, rto)
 			}
 			if !again {
-				infra = append(infra, fmt.Sprintf("failure of shard %s did not reproduce from %s (flaky harness or schedule-dependent):\n%s", filepath.Base(r.base), cand, logTail))
-				continue
+				// Pollution hunt: a case that fails inside its shard but passes alone usually suffers from package-level
+				// state that an EARLIER case of the same process left behind. The shard is a pure function of its
+				// seed, so it is run again with the process-state canary after every case; the first case after which
+				// the canary fails is saved with "canary": true and must reproduce (case + canary) in a fresh process.
+				hunted := false
+				if !isCrumb && huntsDone < 2 {
+					huntsDone++
+					hbase := r.base + "-hunt"
+					run := c.run
+					if r.race {
+						run = c.raceRun
+					}
+					hctx, hcancel := context.WithTimeout(context.Background(), to)
+					hr := runShard(hctx, b, c, tier, seed, r.idx, shardCount(c, r), run, hbase, "VERIF_CANARY=1")
+					hcancel()
+					if hr.exitCode != 0 && !hr.timedOut {
+						// the first failing case of the hunt run - flagged by the canary or failing by itself - ran in a
+						// process that was clean until then, and it was saved without shrinking
+						if _, err := os.Stat(hbase + ".fail.json"); err == nil {
+							if rep2, bug2, out2 := replayFresh(b, hbase+".fail.json", rto); rep2 && !bug2 {
+								cand, out, hunted = hbase+".fail.json", out2, true
+							}
+						}
+					}
+				}
+				if !hunted {
+					infra = append(infra, fmt.Sprintf("failure of shard %s did not reproduce from %s (flaky harness or schedule-dependent):\n%s", filepath.Base(r.base), cand, logTail))
+					continue
+				}
 			}
 		}
 		// reproduced: known finding?
@@ -699,6 +727,19 @@ func runCheck(c *propCfg, tier string) int {
 		return 2
 	}
 	return 0
+}
+
+// shardCount: the number of shards the failing shard's run was split into.
+func shardCount(c *propCfg, r shardResult) int {
+	if strings.Contains(filepath.Base(r.base), "noasm-") {
+		return 1
+	}
+	if r.race {
+		if c.shards > 8 {
+			return 8
+		}
+	}
+	return c.shards
 }
 
 func keys(m map[string]bool) []string {
